@@ -862,7 +862,8 @@ def gen_tie_world(rng: random.Random, n_steps: int) -> Dict[str, Any]:
 
 def gen_world(rng: random.Random, *, n_steps: int = 40, fleets: Optional[bool] = None, humans: bool = True,
               dt: Optional[int] = None, tight: bool = True, focus: Optional[str] = None, osm: bool = False,
-              pool: bool = False, variant: Optional[str] = None, far: bool = False, dry: bool = False) -> Dict[str, Any]:
+              pool: bool = False, variant: Optional[str] = None, far: bool = False, dry: bool = False,
+              away: bool = False) -> Dict[str, Any]:
     """a small world built to make vehicles contend: few plugs and stalls, co-located entities, low charge"""
     if focus == "queue":
         return gen_queue_world(rng, n_steps, variant)
@@ -918,7 +919,8 @@ def gen_world(rng: random.Random, *, n_steps: int = 40, fleets: Optional[bool] =
                 remote.append(sc)
             stations.append({"id": st, "lat": sc[0], "lon": sc[1],
                              "plugs": [(rng.choice(["LEVEL_1", "LEVEL_2"]), rng.randint(1, 2), False)]})
-        bases.append({"id": f"b{k+1}", "lat": c[0], "lon": c[1], "station": st, "stalls": rng.randint(1, 2) if tight else 5})
+        bases.append({"id": f"b{k+1}", "lat": c[0], "lon": c[1], "station": st,
+                      "stalls": 1 if away else rng.randint(1, 2) if tight else 5})      # away: bases are full most of the time
     vehicles = []
     n_v = rng.randint(3, 7)
     schedules = [("early", "00:00:00", _hms(dt * (n_steps // 3))), ("late", _hms(dt * (n_steps // 4)), _hms(dt * (3 * n_steps // 4)))]
@@ -929,6 +931,8 @@ def gen_world(rng: random.Random, *, n_steps: int = 40, fleets: Optional[bool] =
              "soc": rng.choice([0.004, 0.03, 0.2, 0.6, 0.995, 1.0])}
         if dry:
             v["soc"] = rng.uniform(0.002, 0.012)        # a kilometre or three: these vehicles run dry on the road
+        elif away:
+            v["soc"] = rng.choice([0.6, 0.8, 0.995])    # everybody can be matched
         if humans and rng.random() < 0.3:
             v["schedule"] = rng.choice(["early", "late"])
             v["home_base"] = rng.choice(bases)["id"]
@@ -937,12 +941,12 @@ def gen_world(rng: random.Random, *, n_steps: int = 40, fleets: Optional[bool] =
         # somebody is standing at such a station: AT the plugs that serve the base, but not at the base
         vehicles.append({"id": f"vr{k+1}", "lat": sc[0], "lon": sc[1], "mech": "leaf_50", "soc": rng.choice([0.2, 0.6])})
     requests = []
-    n_r = rng.randint(4, 16)
+    n_r = rng.randint(10, 18) if away else rng.randint(4, 16)
     t_end = dt * n_steps
     for k in range(n_r):
         o = cells[rng.randrange(ncell)]
         d = cells[rng.randrange(ncell)]
-        if rng.random() < 0.7:
+        if rng.random() < (0.1 if away else 0.7):      # away: vehicles spend several steps on their way to a request
             # near a vehicle: immediate pickups
             vv = rng.choice(vehicles)
             o = (vv["lat"], vv["lon"])
@@ -955,7 +959,7 @@ def gen_world(rng: random.Random, *, n_steps: int = 40, fleets: Optional[bool] =
     spoil_memberships(requests, rng, bool(fleet_ids))
     requests.sort(key=lambda r: (r["dep"], r["id"]))
     w: Dict[str, Any] = {
-        "name": "adv", "dt": dt, "start": 0, "end": t_end, "cancel": rng.choice([3 * dt, 5 * dt, 600]),
+        "name": "adv", "dt": dt, "start": 0, "end": t_end, "cancel": t_end if away else rng.choice([3 * dt, 5 * dt, 600]),   # away: patient customers
         "vehicles": vehicles, "requests": requests, "stations": stations, "bases": bases,
         "schedules": schedules, "rate": (rng.choice([1.0, 2.2]), rng.choice([0.0, 1.6]), rng.choice([0.0, 5.0])),
     }
